@@ -140,3 +140,30 @@ _S["ImportanceNestedSampler"].attrs.update({
     "importance": "Any",
     "stopping_criterion": "Any",
 })
+
+# ---- C13 / C11: ghost counters for checkpoint writes ---------------------
+_S["ImportanceNestedSampler"].attrs.update({
+    "ghost_ckpt_writes": "Int",       # ghost: calls that write a checkpoint
+    "save_existing_checkpoint": "Bool",
+})
+shape("SamplerAbs", {"ghost_ckpt_requests": "Int",
+                     "ghost_pool_closed": "Int"},
+      methods={
+          "close_pool": Contract(
+              "<abstract>", "SamplerAbs.close_pool", params={"code": "Any"},
+              trusted=True, modifies=["self.ghost_pool_closed"],
+              trusted_reason="abstract sampler: closing the pool",
+              ensures=["self.ghost_pool_closed == "
+                       "old(self.ghost_pool_closed) + 1"]),
+          "checkpoint": Contract(
+              "<abstract>", "SamplerAbs.checkpoint",
+              params={"periodic": "Bool", "force": "Bool"},
+              trusted=True, modifies=["self.ghost_ckpt_requests"],
+              trusted_reason="abstract sampler: a (non-periodic) "
+              "checkpoint request",
+              ensures=["self.ghost_ckpt_requests == "
+                       "old(self.ghost_ckpt_requests) + 1"]),
+      })
+shape("FlowSampler", {"ns": "Obj(SamplerAbs)", "exit_code": "Int"})
+
+_S["NestedSampler"].attrs["ghost_ckpt_writes"] = "Int"
